@@ -231,6 +231,12 @@ MALFORMED = {
     "arity-clamp": "{{clamp([[0]], 1)}}", "undefined-var": "{{$nope + [[0]]}}", "dangling-op": "{{[[0]] +}}", "double-op": "{{[[0]] * / 2}}", "empty-parens": "{{[[0]] + ()}}",
     "call-unclosed-at-end": "{{max(3, 2 + [[0]]}}", "call-unclosed-abs": "{{abs([[0]]}}", "call-unclosed-nested": "{{1 + max(2, abs([[0]])}}", "call-unclosed-empty": "{{random(}}",
     "call-extra-close": "{{abs([[0]]))}}", "call-missing-comma": "{{max(1 [[0]])}}", "call-trailing-comma": "{{max([[0]],)}}", "only-open": "{{(}}", "nested-unclosed": "{{((1 + [[0]])}}",
+    **{f"arity-over-{f}": "{{%s([[0]], %s)}}" % (f, ", ".join(["2"] * n)) for f, n in
+       [(f1, 1) for f1 in ("abs", "ceil", "floor", "fract", "sign", "sqrt", "log", "exp", "sin", "cos", "tan", "asin", "acos", "atan", "not", "trunc", "round")] +
+       [(f2, 2) for f2 in ("pow", "divmod", "r2p", "p2r", "randint", "lt", "le", "gt", "ge", "eq", "ne", "and", "or", "xor", "swap")] + [(f3, 3) for f3 in ("clamp", "mix", "if")]},
+    **{f"arity-under-{f}": "{{%s([[0]]%s)}}" % (f, ", 2" * n) for f, n in
+       [(f2, 0) for f2 in ("divmod", "r2p", "p2r", "randint", "lt", "le", "gt", "ge", "eq", "ne", "and", "or", "xor", "swap")] + [(f3, 1) for f3 in ("if",)]},
+    "arity-over-listvar": None,
     "circular": None, "self-ref": None, "trailing": "{{[[0]] 2}}", "arity-mix": "{{mix([[0]], 1)}}", "select-range": "{{select(5, [[0]], 1)}}",
 }
 # results are printed with at most three decimals, without trailing zeros, integers without a fraction (property C14 via C09:
@@ -253,7 +259,7 @@ CLOSE_CMP = [("eq(0.1234, 0.1232)", "0"), ("ne(0.1234, 0.1232)", "1"), ("eq(1 / 
              ("lt(0.1232, 0.1234)", "1"), ("gt(0.1234, 0.1232)", "1"), ("le(0.1234, 0.1232)", "0"), ("ge(0.1232, 0.1234)", "0"), ("0.1234 eq 0.1232", "0"), ("0.1234 ne 0.1232", "1"),
              ("0.1232 lt 0.1234", "1"), ("eq(2.5, 2.5)", "1"), ("eq(1000.0001, 1000.0002)", "0"), ("max(0.1232, 0.1234) eq 0.1234", "1"), ("min(0.00004, 0.00005) lt 0.00005", "1"),
              ("in(0.1234, 0.1232, 0.1233)", "0"), ("if(0.0004, 1, 2)", "1"), ("not(0.0004)", "0"), ("0.0004 and 1", "1"), ("0.0004 or 0", "1"), ("xor(0.0004, 0)", "1")]
-RANDOM_VARIANTS = ["same-twice", "same-twice-text", "same-thrice", "reuse-attr-override", "reuse-attr-override2", "loop-count-random", "loop-count-random3", "for-data-random", "while-random", "geom", "text", "circle-r", "var", "if", "comment", "relpos", "g-attr", "two-in-one", "loop-body", "reuse-attr",
+RANDOM_VARIANTS = ["same-twice", "same-twice-text", "same-thrice", "reuse-attr-override", "reuse-attr-override2", "loop-count-random", "loop-count-random3", "for-data-random", "while-random", "textvar-for3", "textvar-if2", "textvar-expr2", "textvar-while2", "geom", "text", "circle-r", "var", "if", "comment", "relpos", "g-attr", "two-in-one", "loop-body", "reuse-attr",
                    "randint", "randint-same", "randint-frac", "randint-neg", "random-in-expr", "randint-in-cond"]
 
 
@@ -514,6 +520,8 @@ def build(td, wrong=False):
             doc = '<svg><var a="{{$b + 1}}" b="{{$a + [[0]]}}"/><rect wh="1" data-v="{{$a}}"/></svg>'
         elif case == "self-ref":
             doc = '<svg><var a="$a + [[0]]"/><rect wh="1" data-v="{{$a}}"/></svg>'
+        elif case == "arity-over-listvar":
+            doc = '<svg><var p="[[0]], 2, 3"/><rect wh="1" data-v="{{gt($p)}}"/></svg>'
         else:
             doc = f'<svg><rect wh="1" data-v="{MALFORMED[case]}"/></svg>'
 
@@ -628,10 +636,15 @@ def build(td, wrong=False):
                # loop control expressions are occurrences too: evaluated once per loop (count) / once per test (while)
                "loop-count-random": '<loop count="{{randint(2, 2)}}"><rect wh="1"/></loop>', "loop-count-random3": '<loop count="{{randint(3, 3) - 2}}"><rect wh="2"/></loop>',
                "for-data-random": '<for var="q" data="randint(5, 5), 7"><rect wh="$q"/></for>', "while-random": '<var n="0"/><loop while="lt($n, 1) and ge(random(), 0)"><var n="1"/></loop>',
+               # a variable that holds the text of a random call draws at every reference, also within one expression
+               "textvar-for3": '<var r="random()"/><for data="$r, $r, $r" var="q"><rect wh="1" data-q="$q"/></for>',
+               "textvar-if2": '<var r="random()"/><if test="$r ne $r"><circle r="1"/></if>',
+               "textvar-expr2": '<var r="random()"/><rect wh="1" data-q="{{$r - $r}}"/>',
+               "textvar-while2": '<var r="random()" n="0"/><loop while="lt($n, 1) and ge($r + $r, 0)"><var n="1"/></loop>',
                "randint": '<rect wh="1" data-i="{{randint(1, 6)}}"/>', "randint-same": '<rect wh="1" data-i="{{randint(3, 3)}}"/>',
                "randint-frac": '<rect wh="1" data-i="{{randint(2.2, 2.9)}}"/>', "randint-neg": '<rect wh="1" data-i="{{randint(-4, -4)}}"/>',
                "random-in-expr": '<rect wh="1" data-i="{{0 * random() + 1}}"/>', "randint-in-cond": '<if test="{{randint(0, 0)}}"><circle r="1"/></if>'}[v]
-        draws = {"two-in-one": 2, "loop-body": 2, "while-random": 2, "same-twice": 2, "same-twice-text": 2, "same-thrice": 3}.get(v, 1)
+        draws = {"textvar-for3": 3, "textvar-if2": 2, "textvar-expr2": 2, "textvar-while2": 4, "two-in-one": 2, "loop-body": 2, "while-random": 2, "same-twice": 2, "same-twice-text": 2, "same-thrice": 3}.get(v, 1)
         base_mid = "".join(f'<rect wh="1" data-m{j}="{R}"/>' for j in range(draws))
         d0 = f"<svg>{probe(1)}{mid}{probe(2)}{probe(3)}</svg>"
         d1 = f"<svg>{probe(1)}{base_mid}{probe(2)}{probe(3)}</svg>"
